@@ -150,6 +150,7 @@ def catalog(etl):
     add('unpack', lambda s: etl.unpack(etl.convert(s, 'b', lambda v: tuple(v.split('-'))), 'b', ['p', 'q']))
     add('unpackdict-sampled', lambda s: etl.unpackdict(etl.convert(s, 'b', lambda v, row: {'w': v} if row.a < 2 else None, pass_row=True), 'b', samplesize=5), c=5)
     add('unpackdict', lambda s: etl.unpackdict(etl.convert(s, 'b', lambda v: {'w': v}), 'b', keys=['w']))
+    add('unpackdict-sampled-no-dict', lambda s: etl.unpackdict(etl.convert(s, 'b', lambda v: None), 'b', samplesize=5), c=5)      # a column without any dict: the sample is still 5 rows
     add('fieldmap', lambda s: etl.fieldmap(s, OrderedDict([('x', 'a'), ('y', ('b', lambda v: v.upper())), ('z', lambda r: r.a + 1)])))
     add('rowmap', lambda s: etl.rowmap(s, lambda r: [r[0], r[1].upper()], header=['x', 'y']))
     add('rowmapmany', lambda s: etl.rowmapmany(s, lambda r: [[r[0], 1], [r[0], 2]], header=['x', 'y']))
@@ -435,7 +436,7 @@ def run(ctx):
                'convert-where', 'convert-passrow', 'convert-failonerror-none', 'convertall', 'convertnumbers', 'replace', 'replaceall', 'update',
                'format', 'formatall', 'interpolate', 'interpolateall', 'rename', 'rename-dict', 'setheader', 'extendheader', 'pushheader',
                'prefixheader', 'suffixheader', 'sortheader', 'filldown', 'filldown-c', 'fillright', 'fillleft', 'sub', 'capture', 'split',
-               'splitdown', 'unpack', 'unpackdict', 'unpackdict-sampled', 'flatten-unflatten', 'fieldmap', 'rowmap', 'rowmapmany', 'melt', 'hashleftjoin', 'hashlookupjoin', 'data',
+               'splitdown', 'unpack', 'unpackdict', 'unpackdict-sampled', 'unpackdict-sampled-no-dict', 'flatten-unflatten', 'fieldmap', 'rowmap', 'rowmapmany', 'melt', 'hashleftjoin', 'hashlookupjoin', 'data',
                'values', 'records', 'dicts', 'namedtuples', 'progress', 'clock', 'cache', 'wrap', 'teecsv', 'teetsv', 'teepickle', 'teetext',
                'teehtml'}
     seeds = [rng.randrange(1000) for _ in range(4 if ctx.thorough() else 1)]
